@@ -9,10 +9,16 @@ from .core import *
 from .world import Unsupported
 
 
+SPEC_MODE = [False]     # specifications index with non-negative expressions (or literal negatives): no wrap-around term
+
+
 def norm_index(idx, n):
     """python index normalisation: negative indices count from the end"""
+    idx = z3.simplify(idx)
     if z3.is_int_value(idx):
         return idx if idx.as_long() >= 0 else n + idx
+    if SPEC_MODE[0]:
+        return idx
     return z3.If(idx < 0, idx + n, idx)
 
 
